@@ -159,6 +159,23 @@ def run():
             for (x, y) in pairs:
                 jobs.append((x, y, opts))
                 meta.append((gi, opts["strategy"]))
+    # one very large mapping (more than 2048 keys): size-dependent shortcuts must not make the result order-dependent
+    big = {"k%04d" % j: j % 7 for j in range(2100)}
+    a_big = dict(big, k3=True, x=[2])
+    b_big = dict(big, k2=True, j2=None, k1=12)
+    def shuffled(d):
+        ks = list(d)
+        r.shuffle(ks)
+        return {k: d[k] for k in ks}
+
+    def extras_first(d, names):
+        return dict([(k, d[k]) for k in names] + [(k, v) for k, v in d.items() if k not in names])
+    big_pairs = [(a_big, b_big), (a_big, shuffled(b_big)), (shuffled(a_big), b_big), (shuffled(a_big), shuffled(b_big)),
+                 (extras_first(a_big, ["x", "k3"]), extras_first(b_big, ["k1", "j2", "k2"])),
+                 (extras_first(a_big, ["k3", "x"]), extras_first(b_big, ["j2", "k1", "k2"]))]
+    for (x, y) in big_pairs:
+        jobs.append((x, y, docs.ALL_OPTS[0]))
+        meta.append((n_base, "auto"))
     ctx = mp.get_context("fork")
     with ctx.Pool(min(16, os.cpu_count() or 4), initializer=_init, maxtasksperchild=500) as pool:
         results = pool.map(_job, jobs, chunksize=16)
